@@ -40,6 +40,16 @@ class TArr(SymArray):
     def contiguous(self):
         return self
 
+    def unbind(self, dim=0):
+        a = _np.moveaxis(_o(self), dim, 0)
+        return tuple(_t(a[i]) if isinstance(a[i], _np.ndarray) else a[i] for i in range(a.shape[0]))
+
+    def squeeze(self, dim=None):
+        return _t(_np.squeeze(_o(self), axis=dim))
+
+    def unsqueeze(self, dim):
+        return _t(_np.expand_dims(_o(self), dim))
+
     def expand(self, *sizes):
         shp = tuple(self.shape[i] if s == -1 else s for i, s in enumerate(sizes))
         return _t(_np.broadcast_to(_o(self), shp))
@@ -111,11 +121,30 @@ def _t(r):
 
 
 def softmax(a, dim=-1):
+    """softmax over entries that may be log-domain values log(p) + t: p * Exp(t - max t) / sum (the shift is arbitrary)"""
     a = _o(a)
-    m = reduce_axis(lambda xs: __import__('functools').reduce(core.smax2, xs), a, dim, True)
-    e = elementwise(lambda x, mm: core.sym_exp(x - mm), a, m)
-    z = reduce_axis(lambda xs: core.ssum(xs), e, dim, True)
-    return _t(elementwise(lambda x, zz: x / zz, e, z))
+
+    def split(x):
+        return (x.p, x.t) if isinstance(x, core.LogVal) else (1, x)
+
+    def row(xs):
+        pts = [split(x) for x in xs]
+        if any(core._is_inf(t) for _, t in pts):
+            pts = [(0, 0) if core._is_inf(t) and t < 0 else (p, t) for p, t in pts]
+        m = None
+        for p, t in pts:
+            if not (not is_sym(p) and p == 0):
+                m = t if m is None else core.smax2(m, t)
+        es = [(0 if (not is_sym(p) and p == 0) else p * core.sym_exp(t - m)) for p, t in pts]
+        z = core.ssum(es)
+        return [e / z for e in es]
+    a2 = _np.moveaxis(a, dim, -1)
+    out = _np.empty(a2.shape, dtype=object)
+    for idx in _np.ndindex(a2.shape[:-1]):
+        r = row(list(a2[idx]))
+        for k, v in enumerate(r):
+            out[idx + (k,)] = v
+    return _t(_np.moveaxis(out, -1, dim))
 
 
 class TorchFacade(types.ModuleType):
@@ -204,6 +233,17 @@ class TorchFacade(types.ModuleType):
 
     def is_tensor(self, x):
         return isinstance(x, TArr)
+
+    Tensor = TArr
+
+    def all(self, x):
+        return sall(list(_o(x).flat))
+
+    def any(self, x):
+        return core.sany(list(_o(x).flat))
+
+    def from_numpy(self, a):
+        return _t(_o(a))
 
     class _LA:
         @staticmethod
